@@ -40,3 +40,10 @@ package tables
 //@   requires [non-negative] index >= 0 && class >= 0
 //@   requires [sanitized-offsets] forall(i, 0, len(am.records), forall(j, 0, len(am.records[i].offsets), int(am.records[i].offsets[j]) <= len(am.data)))
 //@   modifies unspecified
+//
+// ItemVarStore.GetDelta: total for any store the parser returns (one delta per region index in every delta set is the
+// only shape fact needed; region indexes and both store indexes are arbitrary).
+//@ func ItemVarStore.GetDelta C09c
+//@   mode int
+//@   requires [one-delta-per-region] forall(o, 0, len(store.ItemVariationDatas), forall(d, 0, len(store.ItemVariationDatas[o].DeltaSets), len(store.ItemVariationDatas[o].DeltaSets[d]) == len(store.ItemVariationDatas[o].RegionIndexes)))
+//@   modifies unspecified
